@@ -132,6 +132,26 @@ func genC01(c *Ctx, emit func(class, op string)) {
 		get("zero-length", append(g, byte(cc>>16), byte(cc>>8), byte(cc)))
 	}
 	get("empty", []byte{})
+	// reserved bits set, and everything else consistent with reading the reserved bits as part of a
+	// wider length field (11, 12 or 16 bits): payload of that length, CRC over all of it
+	for i := 0; i < c.N(12, 80); i++ {
+		hi := byte(1 << uint(2+r.Intn(6)))
+		if r.Intn(3) == 0 {
+			hi |= byte(r.Intn(4))
+		}
+		lo := byte([]int{0, 0, 1, 5, r.Intn(256)}[r.Intn(5)])
+		for _, width := range []uint{11, 12, 16} {
+			n := (int(hi)<<8 | int(lo)) & (1<<width - 1)
+			if n == 0 || (width == 16 && !c.Thorough() && n > 9000) {
+				continue
+			}
+			g := append([]byte{0xd3, hi, lo}, payloadOfType(r, pickType(r), n)...)
+			cc := crc24(g)
+			g = append(g, byte(cc>>16), byte(cc>>8), byte(cc))
+			get("reserved-bits-as-length", g)
+			emit("stream-reserved-bits-as-length", "stream "+defaultStart+" "+hx(append(append(randFrame(r, 1+r.Intn(20)), g...), randFrame(r, 1+r.Intn(20))...)))
+		}
+	}
 	// a start byte followed by a zero length field, inside streams (any type bits after it)
 	for i := 0; i < c.N(40, 400); i++ {
 		typ := pickType(r)
